@@ -77,7 +77,6 @@ PROPERTY = "C05"
 Q2 = chr(34)
 Q1 = chr(39)
 ALPHA = "<>&a;#lt" + Q2 + Q1
-SPECIAL = "<>&" + Q2 + Q1
 DETAIL = {}
 CONDITIONS = []
 
